@@ -45,13 +45,13 @@ OWN = {
 }
 # invariant of SamplerTrace -> signature
 INV_SIG = {
-    "AtMostOnce": SIG_ONCE, "ExactlyOnce": SIG_ONCE, "Unbiased": SIG_SELECTOR, "KeptRowsFactorGE1": SIG_SFLT1,
+    "AtMostOnce": SIG_ONCE, "ExactlyOnce": SIG_ONCE, "TrUnbiased": SIG_SELECTOR, "KeptRowsFactorGE1": SIG_SFLT1,
     "NoSampleAgentKept": SIG_NSA, "SelectorConsistent": SIG_SELECTOR,
     "FitsNothingSampled": SIG_FITS, "FairShare": SIG_MUST, "FixedWithinBudget": SIG_MUST, "FairShareRemaining": SIG_MUST,
     "TrKeptWithinBudget": SIG_BUDGET, "TrMonotone": SIG_MONOTONE, "QuotaProportional": SIG_QUOTA,
     "QuotaFitIsSize": SIG_QUOTA, "TrQuotaWithinTotal": SIG_QUOTA_SUM,
 }
-C05_INVS = "AtMostOnce ExactlyOnce Unbiased KeptRowsFactorGE1 NoSampleAgentKept SelectorConsistent"
+C05_INVS = "AtMostOnce ExactlyOnce TrUnbiased KeptRowsFactorGE1 NoSampleAgentKept SelectorConsistent"
 C06_INVS = ("FitsNothingSampled FairShare FixedWithinBudget FairShareRemaining TrKeptWithinBudget TrMonotone "
             "QuotaProportional QuotaFitIsSize TrQuotaWithinTotal")
 
@@ -129,10 +129,10 @@ def run(ctx, pid):
         ctx.ev.sample(s)
 
     # ---- I->S
-    take = cases[: (6000 if th else 700)]
+    take = cases[: (6000 if th else 400)]
     res, out, rc = ctx.go_test("internal/data_model", "TestVerifC05C06Trace", inp=take,
-                               env={"VERIF_NRANDOM": 3000 if th else 300, "VERIF_NBIG": 300 if th else 30,
-                                    "VERIF_CHUNK": 1200 if th else 450}, timeout=1500)
+                               env={"VERIF_NRANDOM": 3000 if th else 150, "VERIF_NBIG": 300 if th else 15,
+                                    "VERIF_CHUNK": 1500 if th else 250}, timeout=1500)
     res = ctx.need_result(res, out, rc, "TestVerifC05C06Trace")
     report(ctx, pid, res.get("mismatches"), "trace-driver")
     files = res.get("files") or []
@@ -145,13 +145,14 @@ def run(ctx, pid):
         return path, ctx.tlc("SamplerTrace", "SamplerTraceRun.cfg", workers=1, files={"trace.ndjson": path, "SamplerTraceRun.cfg": cfgtext},
                              timeout=1500, name="trace validation %d" % i, expect_violation=True, heap="4g")
 
-    accepted = 0
+    accepted = nrej = 0
     with concurrent.futures.ThreadPoolExecutor(max_workers=4) as ex:
         tvs = list(ex.map(tv, enumerate(files)))
     for path, t in tvs:
         nruns = sum(1 for line in open(path) if '"ev":"Reset"' in line)
         if t.violated:
-            keep = ctx.save("rejected_trace_%d.ndjson" % accepted, open(path).read())
+            nrej += 1
+            keep = ctx.save("rejected_trace_%d.ndjson" % nrej, open(path).read())
             where = [l for l in t.printed if "TRACE_REJECTED" in l]
             if t.violated.startswith("invariant:"):
                 sig = INV_SIG.get(t.violated.split(":", 1)[1], t.violated)
